@@ -5,9 +5,9 @@ references mc.syncmodel.RefCond / RefEvent."""
 from mc.core import Check
 from mc import syncmodel
 
-COND_OPS = [("wait", None), ("wait", "td"), ("wait", "abs"), ("notify", 1), ("notify", 2), ("notify", 0),
+COND_OPS = [("wait", None), ("wait", "td"), ("wait", "abs"), ("wait", "zero"), ("notify", 1), ("notify", 2), ("notify", 0),
             ("notify_all",), ("cancel", 0), ("cancel", 1), ("cancel", -1), ("adv",)]
-EVENT_OPS = [("wait", None), ("wait", "td"), ("wait", "abs"), ("set",), ("clear",), ("cancel", 0),
+EVENT_OPS = [("wait", None), ("wait", "td"), ("wait", "abs"), ("wait", "zero"), ("wait_set",), ("set",), ("clear",), ("cancel", 0),
              ("cancel", -1), ("adv",)]
 
 
